@@ -2,6 +2,7 @@ import TextxVerif.Wire
 import TextxVerif.Obj.Nav
 import TextxVerif.Obj.LineCol
 import TextxVerif.Obj.Build
+import TextxVerif.Obj.ClassTbl
 /-! Driver for the object-heap models (C05 navigation / parent links, C06 spans / locations).
 ops:
   {"op":"nav","heap":[[cls,parent|null,[[cont,[id…]]…]]…],"q":[Q…]}   → {"a":[A…]}
@@ -9,6 +10,14 @@ ops:
         | ["oftype",root,cf,typ,[fol ids]]          → [id…]
         | ["model",x]                                → id
         | ["pot",typ,x]                              → id | null
+  {"op":"navh","hist":[B…],"steps":[{"upto":k,"heap":[P…],"q":[Q…]}…]}  → {"steps":[{"a":[A…]} | {"err":"conform"}…]}
+      navigation after a history of meta-model constructions (Obj/ClassTbl.lean):
+      B = [[class object,[[attr name,many,cont]…]]…]   one construction: the classes it initialises, in rule order
+      P = [class object,class name,parent|null,[[attr name,is list,[v…]]…]]   a Python object: instance dictionary only,
+          v = 0 (None) | 1 (anything that is not a model object) | id+2
+      each step is answered under the class table after the first `upto` constructions; Q / A as for "nav";
+      "conform": an object lacks an attribute its class lists now / holds a list where a single value is expected or
+      vice versa (Python would raise)
   {"op":"build","mm":[[cls,[[name,many,cont]…]]…],"tree":T,"truth":[[cls,"f"|"l"]…]}
       truth (optional) = user classes whose instances are not always truthy: "f" never truthy
       (`__bool__` → False), "l" container (`__len__` = number of items in its list-valued
@@ -81,6 +90,52 @@ def answer (h : Heap) (n : Nat) (q : Json) : Option Json := do
     | some none => pure Json.null
     | none => pure (Json.mkObj [("err", "fuel")])
   | _ => none
+
+/-! navigation after a history of meta-model constructions -/
+
+def parseMetaAttrs (j : Json) : Option (List MetaAttr) := do
+  let as ← asArr? j
+  as.toList.mapM fun a => do
+    let zs ← asArr? a
+    pure ({ name := ← asNat? (← zs[0]?), many := ← asBool? (← zs[1]?), cont := ← asBool? (← zs[2]?) } : MetaAttr)
+
+def parseMMBuild (j : Json) : Option MMBuild := do
+  let xs ← asArr? j
+  xs.toList.mapM fun e => do
+    let ys ← asArr? e
+    pure (← asNat? (← ys[0]?), ← parseMetaAttrs (← ys[1]?))
+
+def valOfCode (n : Nat) : Val :=
+  if n = 0 then .none else if n = 1 then .prim true else .obj (n - 2)
+
+def parsePObj (j : Json) : Option PObj := do
+  let xs ← asArr? j
+  let cls ← asNat? (← xs[0]?)
+  let cname ← asNat? (← xs[1]?)
+  let parent ← optNat? (← xs[2]?)
+  let ds ← asArr? (← xs[3]?)
+  let dict ← ds.toList.mapM fun d => do
+    let ys ← asArr? d
+    let name ← asNat? (← ys[0]?)
+    let isList ← asBool? (← ys[1]?)
+    let vs ← asNatList? (← ys[2]?)
+    let vals := vs.map valOfCode
+    if isList then pure (name, AVal.many vals)
+    else match vals with
+      | [v] => pure (name, AVal.one v)
+      | _ => none
+  pure { cls := cls, cname := cname, parent := parent, pos := 0, posEnd := 0, dict := dict }
+
+def answerStep (hist : List MMBuild) (j : Json) : Option Json := do
+  let upto ← getNat? j "upto"
+  let ps ← (← getArr? j "heap").toList.mapM parsePObj
+  let qs ← getArr? j "q"
+  let t := tblAfter (hist.take upto)
+  if !(PHeap.conforms t ps) then pure (Json.mkObj [("err", "conform")])
+  else
+    let h : Heap := (PHeap.view t ps).toArray.toList
+    let as ← qs.toList.mapM (answer h ps.length)
+    pure (Json.mkObj [("a", Json.arr as.toArray)])
 
 def parseOp (s : String) : Option Op :=
   match s with
@@ -186,6 +241,13 @@ def handle1 (j : Json) : Json :=
       let h := heapOfArr arr
       match qs.toList.mapM (answer h arr.size) with
       | some as => Json.mkObj [("a", Json.arr as.toArray)]
+      | none => badOp
+    | _, _ => badOp
+  | some "navh" =>
+    match (getArr? j "hist").bind (·.toList.mapM parseMMBuild), getArr? j "steps" with
+    | some hist, some steps =>
+      match steps.toList.mapM (answerStep hist) with
+      | some outs => Json.mkObj [("steps", Json.arr outs.toArray)]
       | none => badOp
     | _, _ => badOp
   | some "build" =>
